@@ -160,8 +160,16 @@ func (r *Recorder) OnReadExecutionEvent(m *service.Message) {
 	}
 	r.addR(e)
 }
+
+// SlowWrite: phone -> time.Duration; the write callback of that terminal's connection sleeps that long
+// (C13: "while a reply callback runs"). Looked up only when non-empty.
+var SlowWrite sync.Map
+
 func (r *Recorder) OnWriteExecutionEvent(m service.Message) {
 	id, serial, phone := hdr(&m)
+	if d, ok := SlowWrite.Load(phone); ok {
+		time.Sleep(d.(time.Duration))
+	}
 	e := Event{Kind: "write", ID: id, Serial: serial, Phone: phone, PSeq: m.ExtensionFields.PlatformSeq, Cmd: uint16(m.ExtensionFields.PlatformCommand),
 		Data: bytes.Clone(m.ExtensionFields.PlatformData), Active: m.ExtensionFields.ActiveSend}
 	if m.ExtensionFields.Err != nil {
